@@ -217,6 +217,43 @@ Proof.
   apply div_unique_bounds; [lia|]. lia.
 Qed.
 
+(* signed 16-bit data (|x| <= 32768, the only 16-bit type of the TFLite front end): exact up to
+   n <= 2^15 by pool_exact_core; first window size h*w (h, w <= 256) that fails: 135 x 247 *)
+Lemma pooling_scale_int16_refuted_lemma :
+  exists n acc scale shift,
+    n = 135 * 247 /\ 0 <= acc <= n * 32767 /\
+    GenScaling.quantise_pooling_scale n 0 = Some (scale, shift) /\
+    apply_scale acc scale shift = 32647 /\ div_half_up acc n = 32646.
+Proof.
+  exists 33345, 1088597542, 4220647426, 47. vm_compute. repeat split; congruence.
+Qed.
+
+Lemma pooling_scale_exact_int16_lemma n acc :
+  1 <= n <= 32768 -> 0 <= acc <= n * 32768 ->
+  exists scale shift,
+    GenScaling.quantise_pooling_scale n 0 = Some (scale, shift) /\
+    apply_scale acc scale shift = div_half_up acc n /\
+    (0 < acc -> apply_scale (- acc) scale shift = - div_half_up acc n).
+Proof.
+  intros Hn Hacc.
+  destruct (Z.eq_dec n 32768) as [->|Hne].
+  - (* the even boundary case 2 * acc <= 2^31 *)
+    rewrite gen_quantise_pooling_scale_eq. eexists; eexists; split; [vm_compute; reflexivity|].
+    split.
+    + change 2147483649 with ((2 ^ (31 + pool_k 32768) + 2 ^ pool_k 32768) / 32768).
+      change 46 with (31 + pool_k 32768).
+      apply pool_exact_core; [lia | lia |]. right. split; [reflexivity|]. change (2 ^ 31) with 2147483648. lia.
+    + intros Hpos. rewrite apply_scale_div by lia. unfold div_half_up.
+      change (2 ^ (46 - 1)) with 35184372088832. change (2 ^ 46) with 70368744177664.
+      apply div_unique_bounds; [lia|].
+      pose proof (Z.div_mod (2 * acc + 32768) (2 * 32768) ltac:(lia)).
+      pose proof (Z.mod_pos_bound (2 * acc + 32768) (2 * 32768) ltac:(lia)). lia.
+  - destruct (pooling_scale_exact_lemma n 32768 acc) as [scale [shift [E [_ [_ X]]]]]; try lia.
+    exists scale, shift. split; [exact E|]. split; [exact X|].
+    intros Hpos. destruct (pooling_scale_negative_lemma n 32768 acc) as [scale' [shift' [E' X']]]; try lia.
+    rewrite E in E'. injection E' as <- <-. exact X'.
+Qed.
+
 (* ---------- the assert in quantise_pooling_scale ---------- *)
 (* windows up to 65536 elements (k <= 16): the assert holds for every rescale_bits >= -16; the
    call sites of register_command_stream_generator.generate_ofm_scaling_for_pooling pass
@@ -258,3 +295,35 @@ Proof.
     destruct (Z.eq_dec n 1) as [->|]; [unfold k, pool_k, frexp_exp_int in P; cbn in P; subst P; lia|].
     specialize (Hlow ltac:(lia)). nia.
 Qed.
+
+(* under TFLite-style double rounding the same pair is not exact for every 8-bit window: which of
+   the two the NPU applies to the pooling scale is part of the modelled hardware semantics *)
+Lemma pooling_scale_double_round_differs_lemma :
+  exists n acc scale shift,
+    1 <= n <= 65536 /\ 0 <= acc <= n * 255 /\
+    GenScaling.quantise_pooling_scale n 0 = Some (scale, shift) /\
+    apply_scale acc scale shift = div_half_up acc n /\
+    apply_scale_double acc scale shift <> div_half_up acc n.
+Proof.
+  exists 65535, 98302, 2147516417, 47. vm_compute. repeat split; congruence.
+Qed.
+
+(* ---------- instances ---------- *)
+Example pooling_scale_ex_3x3 :
+  2 * 9 * 255 < 2 ^ 31 /\ 0 <= 1147 <= 9 * 255 /\
+  GenScaling.quantise_pooling_scale 9 0 = Some (3817748709, 35) /\
+  apply_scale 1147 3817748709 35 = 127 /\ div_half_up 1147 9 = 127 /\
+  apply_scale (-1147) 3817748709 35 = -127.
+Proof. vm_compute. repeat split; congruence. Qed.
+
+Example pooling_scale_ex_16bit_edge :
+  2 * 16384 * 65535 < 2 ^ 31 /\
+  GenScaling.quantise_pooling_scale 16384 0 = Some (2147483649, 45) /\
+  apply_scale (16384 * 65535 - 8192) 2147483649 45 = div_half_up (16384 * 65535 - 8192) 16384.
+Proof. vm_compute. repeat split; congruence. Qed.
+
+Example pooling_assert_ex :
+  GenScaling.quantise_pooling_scale 65536 (-16) = Some ((2 ^ 63 + 2 ^ 16) / 65536, 63) /\
+  GenScaling.quantise_pooling_scale 65536 (-17) = None /\
+  GenScaling.quantise_pooling_scale 1 (-32) = Some (2 ^ 63 + 1, 63).
+Proof. vm_compute. repeat split; reflexivity. Qed.
